@@ -1,7 +1,9 @@
 package transport
 
 import (
+	"context"
 	"encoding/json"
+	"errors"
 	"fmt"
 	"io"
 
@@ -28,4 +30,29 @@ func writeJsonErrorf(w io.Writer, format string, args ...any) {
 
 func writeJsonGraphqlError(w io.Writer, err ...*gqlerror.Error) {
 	writeJson(w, &graphql.Response{Errors: err})
+}
+
+// nextResponse calls the response function of a streamed operation. A panic raised in there (a
+// value that cannot be serialized, for instance) is recovered the way the websocket transport does
+// and handed back as a last, errors-only response, so that the stream can be ended properly instead
+// of being cut by the handler's own recover after the headers are long gone.
+func nextResponse(
+	ctx context.Context,
+	rc *graphql.OperationContext,
+	responses graphql.ResponseHandler,
+) (response *graphql.Response, failed bool) {
+	defer func() {
+		if r := recover(); r != nil {
+			err := rc.Recover(ctx, r)
+			var gqlerr *gqlerror.Error
+			if !errors.As(err, &gqlerr) {
+				gqlerr = &gqlerror.Error{}
+				if err != nil {
+					gqlerr.Message = err.Error()
+				}
+			}
+			response, failed = &graphql.Response{Errors: gqlerror.List{gqlerr}}, true
+		}
+	}()
+	return responses(ctx), false
 }
